@@ -178,6 +178,7 @@ func checkC08(r *Run) {
 	c08Constructors(r, ts, fns)
 	c08Walk(r, p)
 	c08OpenOnce(r, p)
+	c08FileAfterSuccess(r, p)
 	c08ModeGate(r, p)
 	r.Exhaustive = true
 }
@@ -756,3 +757,98 @@ func ccpReachKeep(start *ssa.BasicBlock) map[*ssa.BasicBlock]bool {
 }
 
 var _ = sort.Strings
+
+// succeededThrough: the call is known to have succeeded at `at` — its own error result is known nil there, or the
+// error went through the nil-guard wrapper EnsureNonNil(v, err) whose result is known nil there.
+func succeededThrough(call *ssa.Call, at ssa.Instruction) bool {
+	return succeededThroughK(call, func(v ssa.Value) bool { return knownNilAt(v, at) })
+}
+
+// succeededThroughK: as succeededThrough with the "known nil" test supplied by the caller (a program point or a CFG edge).
+func succeededThroughK(call *ssa.Call, known func(v ssa.Value) bool) bool {
+	e := errResult(call)
+	if e == nil {
+		return false
+	}
+	if known(e) {
+		return true
+	}
+	seen := map[ssa.Value]bool{}
+	var follow func(v ssa.Value, depth int) bool
+	follow = func(v ssa.Value, depth int) bool {
+		if depth > 4 || seen[v] {
+			return false
+		}
+		seen[v] = true
+		for _, rf := range referrers(v) {
+			w, ok := rf.(*ssa.Call)
+			if !ok || calleeName(&w.Call) != "p9p.EnsureNonNil" || len(w.Call.Args) != 2 || w.Call.Args[1] != v {
+				continue
+			}
+			if known(w) || follow(w, depth+1) {
+				return true
+			}
+		}
+		return false
+	}
+	return follow(e, 0)
+}
+
+// c08FileAfterSuccess: a fid's File is set (to a non-nil value) only once the call that produced the file is known
+// to have succeeded: a failed open must leave the fid bound but not open.
+func c08FileAfterSuccess(r *Run, p *Prog) {
+	n := 0
+	for _, fn := range sessionFuncs(p) {
+		fn := fn
+		eachInstr(fn, func(in ssa.Instruction) {
+			st, ok := in.(*ssa.Store)
+			if !ok {
+				return
+			}
+			f, ok := st.Addr.(*ssa.FieldAddr)
+			if !ok || !isP9P(f.X.Type(), "SFid") || fieldName(f.X.Type(), f.Field) != "File" || isNilConst(st.Val) {
+				return
+			}
+			// where does the value come from? (each alternative of a phi is judged at the end of its incoming edge)
+			type alt struct {
+				v     ssa.Value
+				known func(v ssa.Value) bool
+			}
+			alts := []alt{{stripConv(st.Val), func(v ssa.Value) bool { return knownNilAt(v, st) }}}
+			if ph, ok := stripConv(st.Val).(*ssa.Phi); ok {
+				alts = nil
+				for i, e := range ph.Edges {
+					pred, blk := ph.Block().Preds[i], ph.Block()
+					alts = append(alts, alt{stripConv(e), func(v ssa.Value) bool { return edgeKnowsNil(pred, blk, v) || knownNilAt(v, st) }})
+				}
+			}
+			for _, a := range alts {
+				var src *ssa.Call
+				v := a.v
+				for depth := 0; depth < 4 && src == nil; depth++ {
+					switch x := v.(type) {
+					case *ssa.Extract:
+						if c, ok := x.Tuple.(*ssa.Call); ok {
+							src = c
+						}
+					case *ssa.Call:
+						if calleeName(&x.Call) == "p9p.NewReaddir" && len(x.Call.Args) == 2 {
+							v = stripConv(x.Call.Args[1])
+							continue
+						}
+						src = x
+					}
+					break
+				}
+				if src == nil || errResult(src) == nil {
+					continue // a copy of another fid's file or a value without a failure mode
+				}
+				n++
+				ok := succeededThroughK(src, a.known)
+				r.Check(ok, "open-once", fnName(fn)+": File is recorded only after "+calleeName(&src.Call)+" succeeded", st.Pos(),
+					"the fid's File is set before the error of the call that produced it is checked: a failed open leaves the fid looking open (reads reach a stale handle, a retry gets 'already open')")
+			}
+		})
+	}
+	r.Floor("open-once", n, 1, "stores of an opened file into a fid")
+}
